@@ -104,6 +104,7 @@ class Profile:
     final_barline: str = 'random'
     p_pickup: float = 0.2
     bar_numbers: float = 0.6
+    p_hidden_bar: float = 0.0            # invisible barlines (=-, =1-): only the measure-structure checks turn this on
     hostile: float = 0.5
     hostile_text: float = 0.25
     separator_text: float = 0.0
@@ -320,12 +321,17 @@ class _Gen:
         num = str(self.measure_no) if (rng.random() < p.bar_numbers and not double) else ''
         typ = rng.choice(BAR_TYPES) if rng.random() < 0.5 else ''
         ferm = ';' if rng.random() < 0.07 else ''
+        hidden = (not double) and p.p_hidden_bar > 0 and rng.random() < p.p_hidden_bar
+        if hidden:
+            self.doc.tags.add('hidden_barlines')
         cells = []
         for c in range(len(self.paths)):
             t, n_, f = typ, num, ferm
             if p.bar_variants and rng.random() < 0.08:
                 n_ = '' if n_ else str(self.measure_no)
-            cells.append(Cell('bar', f'{eq}{n_}{t}{f}', obj={'eq': eq, 'num': n_, 'type': t, 'fermata': f}))
+            # the whole row is invisible or none of it is; kernpy replaces an invisible barline by a null on export
+            cells.append(Cell('bar', f'{eq}{n_}{"-" if hidden else ""}{t}{f}',
+                              obj={'eq': eq, 'num': n_, 'type': t, 'fermata': f, 'hidden': hidden}))
         self.add(Line('bar', cells))
 
     def fcomment_line(self):
